@@ -103,7 +103,11 @@ def rerun(a):
                 print(sid, "patch no longer applies:", o[-200:])
                 continue
             checks = list(meta.get("checks", {}).keys()) or [meta["property"]]
+            if a.own:
+                checks = [meta["property"]]
             res = run_checks(d, checks, a.tier)
+            if a.own:
+                res = dict(meta.get("checks", {}), **res)
         finally:
             shutil.rmtree(d, ignore_errors=True)
         meta["checks"] = res
@@ -156,6 +160,7 @@ def main():
     q = sp.add_parser("run")
     q.add_argument("--tier", default="quick")
     q.add_argument("-k", default="")
+    q.add_argument("--own", action="store_true", help="only the check of the seed's own property (other recorded verdicts are kept)")
     c = sp.add_parser("reconfirm")
     c.add_argument("-k", default="")
     a = ap.parse_args()
